@@ -81,6 +81,7 @@ WirePage == {
   Fx("charset_codec", <<"cs_nontext_codec", "h_scrape_encoding", "LookupError">>, <<"cs_nontext_codec", "none", "none">>), Fx("charset_codec", <<"cs_meta_nontext_codec", "h_scrape_encoding", "LookupError">>, <<"cs_meta_nontext_codec", "none", "none">>),
   Fx("charset_codec", <<"cs_css_nontext_codec", "h_scrape_encoding", "LookupError">>, <<"cs_css_nontext_codec", "none", "none">>),
   Fx("last_modified", <<"lm_garbage", "h_save_document", "TypeError">>, <<"lm_garbage", "none", "none">>), Fx("last_modified", <<"lm_out_of_range", "h_save_document", "TypeError">>, <<"lm_out_of_range", "none", "none">>),
+  <<"lm_year_overflow", "none", "none">>, <<"lm_year_0", "none", "none">>, <<"lm_before_epoch", "none", "none">>, <<"lm_year_9999", "none", "none">>,
   <<"lm_empty", "none", "none">>, <<"lm_year_big", "none", "none">>,
   <<"rf_refresh_ipv6", "none", "none">>,
   \* server-chosen names reaching the file writer
